@@ -6,8 +6,14 @@ import hv
 from hv import Case
 
 SPEC = {
-    "lean_modules": ["Honeycomb.Props.C08"],
-    "required_theorems": ["C08_block_equals_sequence", "C08_log_block_equals_sequence"],
+    "lean_modules": ["Honeycomb.Props.C08", "Honeycomb.Props.C01GenApi", "Honeycomb.Props.C02GenApi", "Honeycomb.Props.C14Gen", "Honeycomb.Props.C15Gen"],
+    # the code fact C08 rests on -- every read and write of an operation goes through the transaction handed to it -- is part of
+    # what the translator recognises: `self.beta_transac::<i>(trans, …)`, `self.betas[(i, d)].read(trans)`, `….read(trans)` are the
+    # only read shapes it accepts in the translated functions (the whole 2-D and 3-D (un)link / (un)sew API and the single-vertex
+    # insertion kernel, swap_edge and the two cut kernels), so a non-transactional read there (`self.beta::<i>(…)`, `is_i_free`, `is_free`, `orbit(…)`) is a refused shape
+    "gen": ["dispatch2", "dispatch3", "vins", "remesh"],
+    "required_theorems": ["C08_block_equals_sequence", "C08_log_block_equals_sequence",
+                          "C01_gen_api", "C02_gen_api", "C14_gen_insertVertexOnEdge", "C15_gen_swapEdge", "C15_gen_cutOuterEdge", "C15_gen_cutInnerEdge"],
     "trusted_base": [
         "Lean 4.33 kernel; axioms propext, Classical.choice, Quot.sound only",
         "model of fast-stm's transaction log (Honeycomb/Model/Stm.lean) and theorem T1 (log semantics = sequential semantics)",
@@ -308,6 +314,28 @@ def programs3(count, rng):
         init = [f"new 3 {n} 1"] + [f"wv {d} {d} 0 0" for d in range(1, n + 1)]
         lines = init + ["snap"] + ops + ["snap"] + init + ["tx"] + ops + ["endtx", "snap"]
         cases.append(Case(name, lines, oracle="c08k", meta={"sig": "program-3d", "k": len(ops), "ninit": len(init)}))
+    # directed: a face is OPENED earlier in the same program and then 3-sewn -- the open-face arm of three_sew / three_unsew (the extra
+    # end-vertex pair, taken when beta0 of the left dart is null) must see the beta0 written by the program, not the committed one.
+    # left path 8 -> 1 -> 2 -> 3, right path 4 -> 5 -> 6 -> 9, dart 7 = beta2(6); cutting 8->1 and 6->9 leaves the mirrored open faces
+    # 1-2-3 / 4-5-6 (seeded change C08-11)
+    pts = {8: "-1 0 0", 1: "0 0 0", 2: "1 0 0", 3: "1 1 0", 4: "0 1 0", 5: "1 1 0", 6: "1 0 0", 7: "0 0 0", 9: "0 0 0"}
+    k = 0
+    for mask in (1, 31, 0):
+        for cut in ("unsew", "unlink"):
+            for pre in (0, 1, 2):          # how many of the two cuts happen BEFORE the program (committed), the rest inside it
+                for with7 in (True, False):
+                    init = [f"new 3 9 {mask}"] + [f"flink 1 {a} {b}" for a, b in ((8, 1), (1, 2), (2, 3), (4, 5), (5, 6), (6, 9))]
+                    if with7:
+                        init.append("flink 2 6 7")
+                    init += [f"wv {d} {pts[d]}" for d in (8, 1, 2, 3, 4, 5, 6, 7, 9)]
+                    if mask & 1:
+                        init += [f"wa 1 {d} {10 + d}" for d in (8, 1, 2, 3, 4, 5, 6, 7, 9)]
+                    cuts = [f"{cut} 1 8", f"{cut} 1 6"]
+                    init += [("f" + c) for c in cuts[:pre]]
+                    ops = cuts[pre:] + ["sew 3 1 6", "vid 7", "rv 1", "rv 7"]
+                    lines = init + ["snap"] + ops + ["snap"] + init + ["tx"] + ops + ["endtx", "snap"]
+                    cases.append(Case(f"q3open{k}", lines, oracle="c08k", meta={"sig": "program-3d", "k": len(ops), "ninit": len(init)}))
+                    k += 1
     return cases
 
 
